@@ -102,7 +102,7 @@ PROPS = {
                             mc("Core-abandon-sc-2x2", ops=("send", "call", "drop", "abandon"), cfgs="CfgsB1", kinds="InitKindsSC", must_cover=("Abandon",))]},
         "gen": {"quick": [gen("g-sc-b1-2x2", "Main_SC_B1", ops=("send", "call", "drop"))], "thorough": [gen("g-sc-b1-2x2", "Main_SC_B1", ops=("send", "call", "drop"), scripts="ScriptsCore"), gen("g-cancel-2x2", "Main_Addr2_B1", ops=("send", "call"), faults=("cancel",), maxfaults=1)]},
         "live": [(mc("Live-2x2", ops=("send", "call", "ping", "stop", "drop", "await"), scripts="ScriptsPlain", cfgs="CfgsB1"), ["L_Resolves"]), (mc("Live-sc-2x2", ops=("send", "call", "drop"), scripts="ScriptsPlain", cfgs="CfgsB1", kinds="InitKindsSC"), ["L_Resolves"])],
-        "families": [("core", 200, 2000), ("life", 100, 1000), ("fail", 100, 1000), ("awaiters", 100, 1000), ("mix", 120, 1200)],
+        "families": [("core", 200, 2000), ("life", 100, 1000), ("fail", 100, 1000), ("awaiters", 100, 1000), ("registry", 100, 1000), ("mix", 120, 1200)],
         "relevant": r'"op":"call"', "relevant_min": 1,
     },
     "C03": {
@@ -143,7 +143,7 @@ PROPS = {
                             faults=("cancel",), maxfaults=1, must_cover=("Cancel", "ScriptStep", "JoinReturn", "AwaitReturn"))],
                "thorough": [mc("Fail-peer-2x2", actors=("a1", "a2"), extra_actors="PeerActors", extra_handles="PeerHandles", ops=("send", "call", "stop"), scripts="ScriptsPeer",
                                cfgs="CfgsB1", faults=("cancel",), maxfaults=1, must_cover=("Cancel", "ScriptStep")),
-                            mc("Fail-own-2x3", maxops=3, ops=("call", "await", "join", "stopped"), scripts="ScriptsFail", cfgs="CfgsFailOwn", kinds="InitKindsOwn", faults=("cancel",), maxfaults=1),
+                            mc("Fail-own-2x3", maxops=3, ops=("send", "call", "await", "join", "stopped"), scripts="ScriptsFail", cfgs="CfgsFailOwn", kinds="InitKindsOwn", faults=("cancel",), maxfaults=1),
                             mc("Fail-3x2", clients=C3, ops=("send", "call", "await", "halt", "upgrade"), scripts="ScriptsFail", cfgs="CfgsFail", kinds="InitKindsAW", faults=("cancel",), maxfaults=2)]},
         "families": [("fail", 300, 3000), ("tree", 80, 800), ("timers", 80, 800), ("registry", 250, 2500), ("awaiters", 60, 600), ("mix", 120, 1200)],
         "relevant": r'"how":"panic"|"ev":"cancel"|"e":"err"|h_abandon', "relevant_min": 1,
